@@ -117,6 +117,7 @@ func main() {
 	defer out.Flush()
 	runtime.GOMAXPROCS(2)
 	loadSites(*sites)
+	worlds.CheckSeed = *seed
 
 	if *replay != "" {
 		rc := doReplay(*replay, *showLog)
@@ -157,8 +158,12 @@ func main() {
 		Rule        string            `json:"rule"`
 		Components  map[string]string `json:"components"`
 		RaceBuild   bool              `json:"race_build"`
+		Exhaustive  bool              `json:"exhaustive"`
 	}
 	a := agg{T: "summary", Probes: map[string]int{}, Faults: map[string]int{}, SiteHits: map[string]int{}, Rule: p.Rule(), Components: p.Components(), RaceBuild: simrt.RaceBuild}
+	if ex, ok := p.(interface{ Exhaustive(string) bool }); ok {
+		a.Exhaustive = ex.Exhaustive(*tier)
+	}
 	nontriv := map[string]bool{}
 	pairs := map[string]bool{}
 	traces := map[string]bool{}
@@ -291,6 +296,7 @@ func doReplay(path string, showLog bool) int {
 	if rf.Race && !simrt.RaceBuild {
 		fmt.Fprintf(os.Stderr, "worker: replay file was recorded with a race build\n")
 	}
+	worlds.CheckSeed = rf.Seed
 	v, o := p.Run(plan, rf.SchedSeed, rf.Tape, false, true)
 	if showLog && o != nil {
 		for _, l := range logTail(o, 1<<30) {
